@@ -200,11 +200,7 @@ func typeName(t types.Type) string {
 	case *types.Named:
 		obj := t.Obj()
 		if obj.Pkg() != nil {
-			p := obj.Pkg().Path()
-			if i := strings.LastIndex(p, "/"); i >= 0 {
-				p = p[i+1:]
-			}
-			return sanitize(p) + "_" + obj.Name()
+			return pkgTag(obj.Pkg().Path()) + "_" + obj.Name()
 		}
 		return obj.Name()
 	case *types.Alias:
@@ -236,6 +232,26 @@ func typeName(t types.Type) string {
 		return "tuple"
 	}
 	return sanitize(t.String())
+}
+
+// pkgTag: short, collision-free tag for a package path. Several packages of the repository share their last
+// path element (gemmill/types, eth/core/types, chain/types; gemmill/state, eth/core/state; ...): those get a
+// longer tag so that their struct types never share heap arrays.
+var pkgTagOverride = map[string]string{
+	"eth/core/types": "etypes", "chain/types": "ctypes", "eth/core/state": "estate", "eth/common": "ecommon",
+	"eth/core": "ecore", "eth/core/vm": "evm_", "eth/crypto": "ecrypto", "eth/log": "elog", "eth/params": "eparams",
+	"eth/rlp": "erlp", "eth/trie": "etrie", "eth/ethdb": "ethdb", "eth/event": "eevent", "eth/metrics": "emetrics",
+}
+
+func pkgTag(path string) string {
+	sp := shortPkg(path)
+	if t, ok := pkgTagOverride[sp]; ok {
+		return t
+	}
+	if i := strings.LastIndex(sp, "/"); i >= 0 {
+		sp = sp[i+1:]
+	}
+	return sanitize(sp)
 }
 
 func isByte(t types.Type) bool {
